@@ -635,8 +635,12 @@ FUNCS = {"Mark": (["i64"], "bnone"), "IdI": (["i"], "(becho 0)"), "IdI8": (["i8"
          "IdU16": (["u16"], "(becho 0)"), "IdU32": (["u32"], "(becho 0)"), "IdU64": (["u64"], "(becho 0)"), "IdF32": (["f32"], "(becho 0)"),
          "IdF64": (["f64"], "(becho 0)"), "IdS": (["s"], "(becho 0)"), "IdB": (["b"], "(becho 0)"), "Two": (["i64", "f64"], "(becho 0)"),
          "Mix3": (["u8", "s", "i32"], "(becho 2)"), "NoRet": ([], "bnone"), "Boom": ([], "bpanic"), "Hold": (["s"], "bnone")}
-HOST_METHODS = {"Mark": (["i64"], "bnone"), "Id64": (["i64"], "(becho 0)"), "IdU8": (["u8"], "(becho 0)"), "IdF64": (["f64"], "(becho 0)"), "Boom": ([], "bpanic")}
-SUB_METHODS = {"GetN": (["i32"], "(becho 0)")}
+HOST_METHODS = {"Mark": (["i64"], "bnone"), "Id64": (["i64"], "(becho 0)"), "IdU8": (["u8"], "(becho 0)"), "IdF64": (["f64"], "(becho 0)"), "Boom": ([], "bpanic"),
+                "Echo": (["i64"], "(becho 0)")}
+SUB_METHODS = {"GetN": (["i32"], "(becho 0)"), "EchoN": (["i32"], "(becho 0)")}
+# value-receiver methods: the only ones a struct VALUE (injected by value, or a struct-typed field) offers through reflection
+HOST_VALUE_METHODS = ("Echo",)
+SUB_VALUE_METHODS = ("EchoN",)
 HOST_FIELDS = [("I8", "i8"), ("I32", "i32"), ("I64", "i64"), ("U8", "u8"), ("U64", "u64"), ("F32", "f32"), ("F64", "f64"), ("S", "s"), ("B", "b")]
 SUB_FIELDS = [("N", "i64"), ("F", "f64"), ("S", "s"), ("U8", "u8")]
 
@@ -710,7 +714,7 @@ def coq_hobj(d, dump=None):
         flds = [(n, "(hval %s)" % coq_value(src["fields"][n])) for n, _ in HOST_FIELDS]
         sub = coq_fields([(n, "(hval %s)" % coq_value(src["sub"][n])) for n, _ in SUB_FIELDS])
         psub = coq_fields([(n, "(hval %s)" % coq_value(src["psub"][n])) for n, _ in SUB_FIELDS])
-        flds.append(("Sub", "(hstruct false %s [])" % sub))
+        flds.append(("Sub", "(hstruct false %s %s)" % (sub, coq_list([coq_fdesc(n, SUB_METHODS[n]) for n in SUB_VALUE_METHODS]))))
         flds.append(("PSub", "(hstruct true %s %s)" % (psub, coq_list([coq_fdesc(n, s) for n, s in SUB_METHODS.items()]))))
         m = src.get("m") or {}
         mitems = sorted(m.items()) if isinstance(m, dict) else [(a, b) for a, b in m]
@@ -719,7 +723,8 @@ def coq_hobj(d, dump=None):
         # an array FIELD of a struct injected by pointer is addressable: it behaves as a fixed-length slice;
         # inside a struct injected by value it is a plain (unaddressable) array
         flds.append(("AR", "(hseq false %s (TU KU8) %s)" % (coq_bool(k != "struct"), coq_list([coq_value(tv_int("u8", int(x))) for x in (src.get("ar") or [0, 0, 0])]))))
-        return "(hstruct %s %s %s)" % (coq_bool(k == "struct"), coq_fields(flds), coq_list([coq_fdesc(n, s) for n, s in HOST_METHODS.items()]))
+        meths = HOST_METHODS.items() if k == "struct" else [(n, HOST_METHODS[n]) for n in HOST_VALUE_METHODS]
+        return "(hstruct %s %s %s)" % (coq_bool(k == "struct"), coq_fields(flds), coq_list([coq_fdesc(n, s) for n, s in meths]))
     if k in ("map", "pmap"):
         keys = (dump.get("keys") if dump else d.get("keys")) or []
         elems = (dump.get("elems") if dump else d.get("elems")) or []
@@ -791,6 +796,8 @@ def run_lang(cases, timeout=150):
     for p, c in zip(payload, cases):
         if c.get("twice"):
             p["twice"] = True
+        if c.get("reinject"):
+            p["reinject"] = True
     shards = [payload[i::NCPU] for i in range(NCPU)]
     shards = [s for s in shards if s]
 
@@ -837,7 +844,8 @@ def evaluate_lang(tag, cases, obs, fixed_pos=True, contained=True):
             continue
         ok_cases.append(c)
     shard = max(40, min(250, (len(ok_cases) + NCPU - 1) // NCPU))
-    parts = [ok_cases[i:i + shard] for i in range(0, len(ok_cases), shard)]
+    nparts = max(1, (len(ok_cases) + shard - 1) // shard)
+    parts = [ok_cases[i::nparts] for i in range(nparts)]      # striped: big texts cluster at the end of the generators' output
 
     def one(ip):
         i, part = ip
@@ -923,7 +931,7 @@ def flat_to_tree(operands, ops):
 
 # ---------------------------------------------------------------- random typed expressions
 BOUNDARY_INTS = [0, 1, -1, 2, 7, -7, 255, 256, 2 ** 31 - 1, 2 ** 31, -2 ** 31, 2 ** 53, 2 ** 53 + 1, 2 ** 63 - 1, -2 ** 63, 2 ** 62, 3037000500]
-REALS = ["0.5", "2.25", "1.5", "0.1", "100.0", "3.0", "1e3", "0.001", "7.75", "1e18"]
+REALS = ["0.5", "2.25", "1.5", "0.1", "100.0", "3.0", "1e3", "0.001", "7.75", "1e18", "0.0000000005", "1e-10", "1e-300"]
 STRS = ["", "a", "ab", "b", "abc", "zz", "a b", "10", "9"]
 
 
@@ -937,9 +945,9 @@ def rand_scalar(rng, t):
         cands = [z for z in BOUNDARY_INTS if 0 <= z < 2 ** b] + [rng.randint(0, 2 ** b - 1), 2 ** b - 1]
         return tv_int(t, rng.choice(cands))
     if t == "f64":
-        return tv_float(t, rng.choice([0.0, -0.0, 0.5, -2.25, 0.1, 1e308, 9007199254740993.0, 1e-3, 3.0, -7.75, float(rng.randint(-1000, 1000)) / 8]))
+        return tv_float(t, rng.choice([0.0, -0.0, 0.5, -2.25, 0.1, 1e308, 9007199254740993.0, 1e-3, 3.0, -7.75, 2.5e-10, -1e-12, 5e-324, 1e-300, float(rng.randint(-1000, 1000)) / 8]))
     if t == "f32":
-        return tv_float(t, rng.choice([0.0, 0.5, -2.25, 3.0, 1024.0, -7.75, float(rng.randint(-1000, 1000)) / 8]))
+        return tv_float(t, rng.choice([0.0, 0.5, -2.25, 3.0, 1024.0, -7.75, 2.0 ** -40, -(2.0 ** -100), float(rng.randint(-1000, 1000)) / 8]))
     if t == "s":
         return tv_str(rng.choice(STRS))
     return tv_bool(rng.random() < 0.5)
@@ -1179,18 +1187,27 @@ class StmtGen:
 SYMPTOM_L = {0: "tree", 1: "class", 2: "value", 3: "cites", 4: "calls", 5: "store", 6: "compile"}
 
 
-def lang_check(run, pid, make_cases, rule_text, assumptions, nontrivial, focus_codes=None, classify=None):
+def lang_check(run, pid, make_cases, rule_text, assumptions, nontrivial, focus_codes=None, classify=None, extra=None):
     """build, prove, run the campaign, compare inside Coq, report.
     nontrivial(case, obs) -> hashable key or None; focus_codes: the disagreement codes that decide THIS property
     (other codes are still reported: any model/implementation disagreement means the theorems no longer describe the code)."""
     build_harness()
-    ok, log = proof_obligations(run, pid, extra_obligations=1,
-                                extra_names=["correspondence_%s: Lang/Check.v mismatches cases = [] and listener tree = grammar reading of the text" % pid])
+    ok, log = proof_obligations(run, pid, extra_obligations=1 + (1 if extra else 0),
+                                extra_names=["correspondence_%s: Lang/Check.v mismatches cases = [] and listener tree = grammar reading of the text" % pid] + ([extra[0]] if extra else []))
     rng = random.Random(run.seed)
     cases = make_cases(rng, run.tier)
     corpus_dir = os.path.join(ROOT, "corpus", pid)
     run.log("running %d rule texts on the implementation" % len(cases))
     obs = run_lang(cases)
+    # re-injection: the second execution (fresh objects bound to the same names in the same data context) is one more case
+    # with the same expected behaviour as a first execution
+    next_id = max([c["id"] for c in cases] + [0]) + 1          # ids stay small: they are nat numerals inside Coq
+    for c, o in list(zip(cases, obs)):
+        if c.get("reinject") and o.get("second") and not o.get("compile"):
+            c2 = dict(c, id=next_id, reinject=False, tree=False, reinjected=True)
+            next_id += 1
+            cases.append(c2)
+            obs.append(dict(o["second"], id=c2["id"]))
     mism = evaluate_lang(pid, cases, obs)
     byid = {c["id"]: c for c in cases}
     ob = {o["id"]: o for o in obs}
@@ -1210,15 +1227,25 @@ def lang_check(run, pid, make_cases, rule_text, assumptions, nontrivial, focus_c
             a, b = o.get("tree", ""), c["expect_tree"]
             j = next((j for j in range(min(len(a), len(b))) if a[j] != b[j]), 0)
             exp = " | listener: ...%s... | grammar reading: ...%s..." % (a[max(0, j - 60):j + 60], b[max(0, j - 60):j + 60])
-        run.report(sig, {"text": c["text"], "inject": c["inject"], "rule": c["rule"], "observation": {k: o.get(k) for k in ("class", "ret", "cites", "calls", "store", "errmsg", "compile")},
+        if c.get("reinjected"):
+            sig["second_execution"] = "fresh objects re-injected under the same names"
+        run.report(sig, {"text": c["text"], "inject": c["inject"], "rule": c["rule"], "reinject": bool(c.get("reinjected")), "observation": {k: o.get(k) for k in ("class", "ret", "cites", "calls", "store", "errmsg", "compile")},
                          "disagreement": LCODES[code]},
                    "%s: %s — rule text: %s%s" % (pid, LCODES[code], c["text"].replace("\n", " | ")[:400], exp))
+    if pid in ("C02", "C09", "C11", "C15", "C18", "C20") and ok:
+        interp_facts_report(run, pid, bool(run.violations))
+    extra_cov = {}
+    if extra:
+        clean, extra_cov = extra[1](run)
+        if clean:
+            run.coverage["discharged"] += 1
     if not ok and not run.violations:
         run.report({"kind": "proof", "theorem": pid}, {"theorem": "Props/%s.v" % pid, "log": log[-3000:]},
                    "%s: the Coq development no longer builds and no failing input was found" % pid, no_input=True)
     cov = run.coverage
     if not mism:
         cov["discharged"] += 1
+    cov.update(extra_cov)
     keys = set()
     classes = {}
     for c in cases:
